@@ -78,6 +78,11 @@ type funcSpec struct {
 	// they become parameters
 	startAt   string
 	startVars []string
+	// regions: runs of top-level statements that are NOT translated but stand in the translation as ONE abstract step
+	// `<fn>_region<k>` — a pure function of the variables the statements read, handing back the variables they set that are
+	// used afterwards, or the values with which the function returns from inside them. {from, to}: the text the first
+	// statement starts with, and the text the first statement AFTER the region starts with.
+	regions [][2]string
 	// world: everything outside the function is one explicit state (`tape__ : τ`): EVERY abstract callee, and every method
 	// of a value whose type is opaque here, takes it and hands it back; values of opaque types are handles (never changed
 	// themselves), so two variables may hold the same one. Implies tape.
@@ -156,7 +161,8 @@ var funcSpecs = []funcSpec{
 	{rel: "", name: "(*X25519Identity).String"},
 	{rel: "", name: "(*X25519Identity).Recipient"},
 	{rel: "agessh", name: "(*EncryptedSSHIdentity).Unwrap", abstract: []string{"agessh.sshFingerprint"},
-		opaque: map[string]string{"ssh.PublicKey": "π", "age.Recipient": "ρ", "age.Identity": "ι"}, stopAt: "err != nil", stopRet: []string{"passphrase", "err"}},
+		opaque: map[string]string{"ssh.PublicKey": "π", "age.Recipient": "ρ", "age.Identity": "ι"},
+		regions: [][2]string{{"k, err := ssh.ParseRawPrivateKeyWithPassphrase", "i.decrypted = decrypted"}}},
 	{rel: "", name: "NewScryptRecipient"},
 	{rel: "", name: "(*ScryptRecipient).SetWorkFactor"},
 	{rel: "", name: "NewScryptIdentity"},
@@ -332,6 +338,7 @@ type fctx struct {
 	tapeVar      *types.Var // the explicit crypto/rand state (funcSpec.tape)
 	logN         int        // log sites passed so far (funcSpec.logs)
 	poisoned     map[*types.Var]bool // variables bound by an error type test: never evaluated
+	regionN      int        // regions passed so far (funcSpec.regions)
 	printfN      int        // printf-like call sites of threaded abstract callees passed so far
 	hoisted      map[*types.Var]bool     // locals of a branch that a deferred closure of that branch uses: declared at the top of the function
 	condDefer    map[*ast.DeferStmt]string // a `defer` inside a branch -> the flag that records whether it was registered
@@ -2662,6 +2669,102 @@ func (c *fctx) mentionsPoisoned(e ast.Node) bool {
 	return found
 }
 
+// emitRegion: the statements of a region (funcSpec.regions) as one abstract step; rest = the statements after it
+func (c *fctx) emitRegion(e *emitter, stmts []ast.Stmt, rest []ast.Stmt) {
+	if len(c.deferred) > 0 || c.lc != nil {
+		c.fail(stmts[0], "region after a defer or inside a loop")
+	}
+	start, end := stmts[0].Pos(), stmts[len(stmts)-1].End()
+	blk := &ast.BlockStmt{List: stmts}
+	restBlk := &ast.BlockStmt{List: rest}
+	usedAfter := map[*types.Var]bool{}
+	for _, v := range c.usedIn(restBlk) {
+		usedAfter[v] = true
+	}
+	var ins, outs []*types.Var
+	for _, v := range c.usedIn(blk) {
+		if v.Pos() < start {
+			ins = append(ins, v)
+		}
+	}
+	asg := c.assignedIn(blk)
+	// variables the region sets (declared before it, or declared in it) that are used afterwards
+	seen := map[*types.Var]bool{}
+	ast.Inspect(blk, func(n ast.Node) bool {
+		if id, ok := n.(*ast.Ident); ok {
+			if v, ok := c.info().Defs[id].(*types.Var); ok && v != nil && usedAfter[v] && !seen[v] {
+				seen[v] = true
+				outs = append(outs, v)
+			}
+		}
+		return true
+	})
+	for v := range asg {
+		if v.Pos() < start && !seen[v] {
+			if c.isParamOrRecv(v) {
+				c.fail(stmts[0], "a region assigns to %s (a parameter or the receiver, or one of its fields)", v.Name())
+			}
+			if usedAfter[v] {
+				seen[v] = true
+				outs = append(outs, v)
+			}
+		}
+	}
+	sort.Slice(outs, func(i, j int) bool { return outs[i].Pos() < outs[j].Pos() })
+	c.regionN++
+	an := fmt.Sprintf("%s_region%d", c.base, c.regionN)
+	var ps, args, ots []string
+	for _, v := range ins {
+		ps = append(ps, c.varLeanType(stmts[0], v))
+		args = append(args, c.nameOf(v))
+	}
+	for _, v := range outs {
+		ots = append(ots, c.varLeanType(stmts[0], v))
+	}
+	// (what the function returns from inside the region: its own results; the receiver and the other values handed back with
+	// them are as they were — a region does not assign to them, checked above)
+	var rts []string
+	for _, r := range c.results {
+		rts = append(rts, c.varLeanType(stmts[0], r))
+	}
+	c.useAbstractName(an, fmt.Sprintf("(%s : %s → Go.M (Go.Loop %s %s))", an, strings.Join(ps, " → "), tupleType(ots), tupleType(rts)))
+	c.sites = append(c.sites, fmt.Sprintf("region %d (lines %d-%d): not translated — the abstract step %s (reads %d variables, sets %d)", c.regionN, c.t.pr.line(start), c.t.pr.line(end), an, len(ins), len(outs)))
+	// variables declared inside the region and used after it: declared here (a declaration cannot leave the match arm)
+	for _, v := range outs {
+		if v.Pos() >= start {
+			c.hoisted[v] = true
+			e.add(1, fmt.Sprintf("let mut %s : %s := %s", c.nameOf(v), c.varLeanType(stmts[0], v), c.zero(stmts[0], v.Type())))
+		}
+	}
+	t := c.tmp()
+	e.add(1, fmt.Sprintf("let %s ← %s %s", t, an, strings.Join(args, " ")))
+	var pats []string
+	for _, v := range outs {
+		pats = append(pats, c.nameOf(v)+"'")
+	}
+	e.add(1, "match "+t+" with")
+	var rvals []string
+	for i := range c.results {
+		p := "v__" + strings.Repeat(".2", i)
+		if i < len(c.results)-1 {
+			p += ".1"
+		}
+		rvals = append(rvals, p)
+	}
+	if len(c.results) == 0 {
+		e.add(1, "| .ret _ => return "+c.retExpr(nil))
+	} else {
+		e.add(1, "| .ret v__ => return "+c.retExpr(rvals))
+	}
+	e.add(1, "| .next "+tupleOf(pats)+" =>")
+	if len(outs) == 0 {
+		e.add(2, "pure ()")
+	}
+	for _, v := range outs {
+		e.add(2, c.nameOf(v)+" := "+c.nameOf(v)+"'")
+	}
+}
+
 // isLog: f is listed in funcSpec.logs
 func (c *fctx) isLog(f *types.Func) bool {
 	if f == nil || f.Pkg() == nil || c.spec == nil {
@@ -4137,9 +4240,30 @@ func (t *ftr) translate(fi *FuncInfo, from *fctx, at ast.Node) string {
 		e.add(1, l)
 	}
 	started := spec == nil || spec.startAt == ""
-	for _, s := range fi.Decl.Body.List {
+	regionEnd := ""
+	var regionStmts []ast.Stmt
+	for bodyIdx, s := range fi.Decl.Body.List {
 		if c.stopped {
 			break
+		}
+		if regionEnd != "" {
+			if !strings.HasPrefix(t.pr.text(fi.Pkg, s), regionEnd) {
+				regionStmts = append(regionStmts, s)
+				continue
+			}
+			c.emitRegion(e, regionStmts, fi.Decl.Body.List[bodyIdx:])
+			regionEnd, regionStmts = "", nil
+		}
+		if spec != nil && started {
+			for _, rg := range spec.regions {
+				if strings.HasPrefix(t.pr.text(fi.Pkg, s), rg[0]) {
+					regionEnd = rg[1]
+				}
+			}
+			if regionEnd != "" {
+				regionStmts = append(regionStmts, s)
+				continue
+			}
 		}
 		if !started {
 			if !strings.HasPrefix(t.pr.text(fi.Pkg, s), spec.startAt) {
@@ -4152,6 +4276,9 @@ func (t *ftr) translate(fi *FuncInfo, from *fctx, at ast.Node) string {
 	}
 	if !started {
 		c.fail(fi.Decl, "funcSpec.startAt matches no top-level statement")
+	}
+	if regionEnd != "" {
+		c.fail(fi.Decl, "funcSpec.regions: no top-level statement starts with %q", regionEnd)
 	}
 	// falling off the end of a function without results: the deferred calls run, then it returns
 	if sig.Results().Len() == 0 {
